@@ -55,6 +55,12 @@ func source() string {
 		sb.WriteString(ddp.Func("c06_ab_"+e.Key, []ddp.Param{{"l", e.DDPList}, {"a", "Zahl"}}, e.ListRet, "Gib l ab dem a. Element zurück."))
 		sb.WriteString(ddp.Func("c06_bis_"+e.Key, []ddp.Param{{"l", e.DDPList}, {"a", "Zahl"}}, e.ListRet, "Gib l bis zum a. Element zurück."))
 	}
+	// the index expression itself shortens the list: the bounds check has to use the length the
+	// list has when the element is accessed
+	sb.WriteString(ddp.Func("c06_shrink", []ddp.Param{{"l", "Zahlen Listen Referenz"}, {"i", "Zahl"}}, "eine Zahl", "Speichere l bis zum 1. Element in l.\n\tGib i zurück."))
+	sb.WriteString(ddp.Func("c06_stale_asg", []ddp.Param{{"l", "Zahlen Listen Referenz"}, {"i", "Zahl"}, {"v", "Zahl"}}, "nichts", "Speichere v in l an der Stelle (c06_shrink l i)."))
+	sb.WriteString(ddp.Func("c06_stale_ref", []ddp.Param{{"l", "Zahlen Listen Referenz"}, {"i", "Zahl"}, {"v", "Zahl"}}, "nichts", "c06_sink_zahl (l an der Stelle (c06_shrink l i)) v."))
+	sb.WriteString(ddp.Func("c06_stale_idx", []ddp.Param{{"l", "Zahlen Listen Referenz"}, {"i", "Zahl"}}, "eine Zahl", "Gib l an der Stelle (c06_shrink l i) zurück."))
 	sb.WriteString(textSource())
 	sb.WriteString(ddp.Func("c06_todo", []ddp.Param{{"v", "Zahl"}}, "eine Zahl", "Wenn v gleich 3 ist, dann:\n\t\t...\n\tGib v zurück."))
 	for _, t := range castTargets {
@@ -165,6 +171,10 @@ func Run(r *core.Report, env *build.Env) {
 			}
 		}
 		cells = append(cells, func() { x.cellTodo() })
+		for _, form := range []string{"asg", "ref", "idx"} {
+			form := form
+			cells = append(cells, func() { x.cellStale(form) })
+		}
 		for _, t := range castTargets {
 			t := t
 			cells = append(cells, func() { x.cellCast(t) })
@@ -600,5 +610,71 @@ func (x *ctx) cellCastDef(key string, toDef bool) {
 			return txt, nr.Exit != 0 || !strings.Contains(nr.Stdout, fmt.Sprintf("RET %x\n", xv))
 		}
 		return txt, !nr.RuntimeError()
+	})
+}
+
+// cellStale: the index expression of an element access shortens the list to one element before it
+// yields the index; afterwards only index 1 is inside the list.
+func (x *ctx) cellStale(form string) {
+	h := x.newH("stale_" + form)
+	defer h.Close()
+	c := h.C
+	l := h.ConcList("l", 8, 3, 4, false)
+	var el []*smt.Expr
+	for k := 0; k < 3; k++ {
+		e := h.Var(fmt.Sprintf("e%d", k), 64)
+		el = append(el, e)
+		h.SetElem(l, k, e)
+	}
+	i := h.Var("i", 64)
+	scalars := []*smt.Expr{i}
+	args := []llse.Val{h.Ptr(l.Hdr), {E: i}}
+	if form != "idx" {
+		v := h.Var("v", 64)
+		scalars = append(scalars, v)
+		args = append(args, llse.Val{E: v})
+	}
+	res := h.Run("c06_stale_"+form, args)
+	dom := c.Eq(i, c.BV(64, 1))
+	sawErr, sawOK := false, false
+	for _, s := range res {
+		h.On(s)
+		switch {
+		case s.Term == llse.TermRuntimeError:
+			sawErr = true
+			h.Holds("error-only-outside-the-shortened-list", s.PC, c.Not(dom))
+		case s.Term == llse.TermReturn:
+			sawOK = true
+			h.Holds("return-only-inside-the-shortened-list", s.PC, dom)
+		}
+	}
+	if !sawErr || !sawOK {
+		x.r.EngineFailf("%s: vacuity guard: error path seen=%v normal path seen=%v", h.Cell, sawErr, sawOK)
+	}
+	x.finish(h, res, func(f *llh.Failure) (string, bool) {
+		m := h.Refine(f, nil, append(append([]*smt.Expr{}, el...), scalars...))
+		if m == nil {
+			return "no model for the native replay", false
+		}
+		arg := llh.CArg{Kind: "list", CType: cElem["zahl"][0], ElemC: cElem["zahl"][1], Len: 3, Cap: 4, Dump: form != "idx"}
+		for k := 0; k < 3; k++ {
+			v, _ := llh.ValOf(m, el[k])
+			arg.Elems = append(arg.Elems, v)
+		}
+		arg.Elems = append(arg.Elems, 0)
+		nc := &llh.NativeCall{Fn: "c06_stale_" + form, DDPSrc: x.src, Opt: x.opt, Args: []llh.CArg{arg}}
+		fixed := append([]*smt.Expr{}, el...)
+		for _, sc := range scalars {
+			v, _ := llh.ValOf(m, sc)
+			fixed = append(fixed, sc)
+			nc.Args = append(nc.Args, llh.CArg{Kind: "int", CType: "ddpint", Bits: v})
+		}
+		nc.RetC = "void"
+		if form == "idx" {
+			nc.RetC = "ddpint"
+		}
+		nr := llh.RunNativeOpt(x.env, nc, strings.HasPrefix(f.Obligation, "memory:"))
+		txt, ok := confirm(h, f, m, nr, fixed)
+		return "model: " + h.ModelString(m) + "\n" + txt, ok
 	})
 }
